@@ -68,6 +68,17 @@ def cfg_lines(cfg, c, wd, tag):
     return lines
 
 
+def refused_lines(cfg, c, variant):
+    """option calls the library refuses (a minimum above the maximum, a maximum below the minimum, a negative minimum), each
+    followed by zck_clear_error: a refused call must leave nothing behind (the file is a function of content and ACCEPTED
+    configuration)"""
+    mx = cfg.get("max", 10485760); mn = cfg.get("min", 1)
+    v = [["ioption %d %d %d" % (c, OPT["min"], mx + 1)],
+         ["ioption %d %d %d" % (c, OPT["max"], mn - 1)] if mn > 1 else ["ioption %d %d %d" % (c, OPT["min"], mx + 4096)],
+         ["ioption %d %d -1" % (c, OPT["min"])]][variant % 3]
+    return v + ["clear_error %d" % c]
+
+
 def segmentation(rnd, n, style):
     if n == 0:
         return []
